@@ -401,3 +401,69 @@ pub fn history_tree(rng: &mut crate::rng::Rng, dm: Dm, idx: usize) -> (Doc, Vec<
     }
     (d, paths)
 }
+
+/// Eventless transitions guarded by data that targetless transitions (in the same state, in a
+/// sibling region, or through a raised event) change without touching the configuration.
+pub fn guarded_eventless(rng: &mut crate::rng::Rng, idx: usize) -> (Doc, Vec<Vec<String>>) {
+    let dm = if idx % 2 == 0 { Dm::Rfsm } else if cfg!(feature = "full") { Dm::Ecma } else { Dm::Rfsm };
+    let k1 = 1 + rng.below(3) as i64;
+    let k2 = 1 + rng.below(2) as i64;
+    let add = |uid: &str, ev: &str, delta: i64| -> Trans {
+        let mut t = tr(uid, ev, &[], dm);
+        t.body.push(Stmt::Assign("v0".into(), Expr::Add("v0".into(), delta)));
+        t
+    };
+    let mut a = st("a", Kind::State, dm);
+    a.trans.push(add("a.0", "inc", 1));
+    a.trans.push(add("a.1", "dec", -1));
+    let mut g = tr("a.2", "", &["b"], dm);
+    g.cond = Cond::Cmp("v0".into(), CmpOp::Ge, k1);
+    a.trans.push(g);
+    if rng.chance(1, 2) {
+        // a compound variant: the atomic states change on `tog`, the guard does not depend on them
+        let mut a1 = st("a1", Kind::State, dm);
+        a1.trans.push(tr("a1.0", "tog", &["a2"], dm));
+        let mut a2 = st("a2", Kind::State, dm);
+        a2.trans.push(tr("a2.0", "tog", &["a1"], dm));
+        a.children = vec![a1, a2];
+    }
+    let mut b = st("b", Kind::State, dm);
+    b.trans.push(add("b.0", "inc", 1));
+    let mut g2 = tr("b.1", "", &["c"], dm);
+    g2.cond = Cond::Cmp("v0".into(), CmpOp::Ge, k1 + k2);
+    b.trans.push(g2);
+    let mut reset = tr("b.2", "reset", &["a"], dm);
+    reset.body.push(Stmt::Assign("v0".into(), Expr::Const(0)));
+    b.trans.push(reset);
+    let mut ri = tr("b.3", "raiseinc", &[], dm);
+    ri.body.push(Stmt::Raise("bump".into()));
+    b.trans.push(ri);
+    b.trans.push(add("b.4", "bump", 1));
+    let mut c = st("c", Kind::State, dm);
+    let mut reset2 = tr("c.0", "reset", &["a"], dm);
+    reset2.body.push(Stmt::Assign("v0".into(), Expr::Const(0)));
+    c.trans.push(reset2);
+    c.trans.push(tr("c.1", "probe", &[], dm));
+    let top: Vec<Node> = if rng.chance(1, 2) {
+        // the counter may also be bumped from a sibling region
+        let mut q = st("q", Kind::State, dm);
+        q.trans.push(add("q.0", "inc2", 1));
+        let mut r2 = st("r2", Kind::State, dm);
+        r2.children = vec![q];
+        let mut r1 = st("r1", Kind::State, dm);
+        r1.children = vec![a, b, c];
+        let mut p = st("p", Kind::Parallel, dm);
+        p.children = vec![r1, r2];
+        vec![p]
+    } else {
+        vec![a, b, c]
+    };
+    let d = doc(&format!("guarded-eventless-{}", idx), dm, top);
+    let alphabet = ["inc", "inc", "inc", "dec", "probe", "reset", "raiseinc", "inc2", "tog"];
+    let mut paths = Vec::new();
+    for _ in 0..5 {
+        let n = 5 + rng.below(10);
+        paths.push((0..n).map(|_| alphabet[rng.below(alphabet.len())].to_string()).collect());
+    }
+    (d, paths)
+}
